@@ -1305,12 +1305,21 @@ func verifyGitObjectAndAttestationsUsingVerifiers(ctx context.Context, verifiers
 	var (
 		verifiedUsing                       string
 		acceptedPrincipalIDs                *set.Set[string]
+		exhaustivePrincipalIDs              *set.Set[string]
 		rslEntrySignatureNeededForThreshold bool
 	)
 	for _, verifier := range verifiers {
 		trustedPrincipalIDs := verifier.TrustedPrincipalIDs()
 
 		usedPrincipalIDs, err := verifier.Verify(ctx, gitID, authorizationAttestation)
+		if err == nil && verifier.verifyExhaustively && len(verifiers) > 1 {
+			// The exhaustive verifier only collects the authenticated
+			// principals that global rules count. It always succeeds, so when
+			// rules protect the namespace one of their verifiers must still be
+			// met.
+			exhaustivePrincipalIDs = usedPrincipalIDs
+			continue
+		}
 		if err == nil {
 			// We meet requirements just from the authorization attestation's sigs
 			verifiedUsing = verifier.Name()
@@ -1385,6 +1394,10 @@ func verifyGitObjectAndAttestationsUsingVerifiers(ctx context.Context, verifiers
 	}
 
 	if verifiedUsing != "" {
+		if exhaustivePrincipalIDs != nil {
+			exhaustivePrincipalIDs.Extend(acceptedPrincipalIDs)
+			acceptedPrincipalIDs = exhaustivePrincipalIDs
+		}
 		return verifiedUsing, acceptedPrincipalIDs, rslEntrySignatureNeededForThreshold, nil
 	}
 
